@@ -83,6 +83,27 @@ pub fn case_strategy(max_ops: usize, neg_weight: u32) -> impl Strategy<Value = C
 			}
 			v
 		}),
+		// a side fork that is TALLER than the best chain but lighter (free difficulty only: with real proofs of work the
+		// longer fork simply wins): it creates a plain output in a block above the head's height and a later block of
+		// the same fork tries to create that commitment again — the duplicate has to be found on the fork being
+		// extended, whose blocks lie beyond anything the head's height says
+		2 => (0u8..=2, any::<u16>(), 1u16..400, 0u8..3).prop_map(|(d, pick, dt, then)| {
+			let blk = |parent: u8, diff: u16, txs: Vec<RawTx>, neg: Neg, dt: u16| RawBlock { parent, cb_key: (dt % 3) as u8, txs, dt, diff, neg, neg_pick: 0, hdr: 0, inp: 0 };
+			let tx = RawTx { ins: vec![pick], outs: vec![RawOut { kind: 0, amt: 0, key: 3 }, RawOut { kind: 0, amt: 1, key: 4 }], fee: 1, kern: 0, zero_offset: false, chain_prev: false };
+			let mut v = vec![Op::Block(blk(0, 900, vec![], Neg::None, dt))];
+			// d + 1 blocks catch up with the head's height, one more goes beyond it
+			for i in 0..=(d + 1) {
+				v.push(Op::Block(blk(if i == 0 { 101 + d } else { 1 }, 1, vec![], Neg::None, dt + 1 + i as u16)));
+			}
+			v.push(Op::Block(blk(1, 1, vec![tx], Neg::None, dt + 9)));
+			v.push(Op::Block(blk(1, 1, vec![], Neg::DupOutput, dt + 10)));
+			match then {
+				0 => v.push(Op::Block(blk(1, 1, vec![], Neg::None, dt + 11))),
+				1 => v.push(Op::Validate),
+				_ => {}
+			}
+			v
+		}),
 		1 => Just(vec![Op::Reopen]),
 		1 => Just(vec![Op::Compact]),
 		1 => Just(vec![Op::Validate]),
